@@ -122,6 +122,8 @@ _key_paths = Contract(
     file='jedi/inference/compiled/access.py', qualname='DirectObjectAccess.get_key_paths.iter_partial_keys',
     params={}, free={'self': _DOA}, families=['DOA', 'Live', 'Type'], yields=_L,
     effects_allowed=[], effect_guard=_guards(False), safety=False, unroll={0: 2}, cover=True,
+    replay=_mk_replay('get_key_paths', lambda a: len(a.get_key_paths())), witness={}, concrete_only=True,
+    witness_library=[{'base': 'dict'}], concrete_ensures=['USER_CODE_CALLS == []'],
 )
 _iter_list = _c('py__iter__list', {}, False, unroll={0: 2}, call=lambda a: a.py__iter__list())
 _class = _c('py__class__', {}, False)
